@@ -56,7 +56,7 @@ def gen_market(rnd, ndays=22, warm=3, n_stocks=None, with_future=None, opts=None
             oid = "5100%02d.XSHG" % (k + 1)
         else:
             oid = "%06d.XSHE" % (k + 1)
-        listed_i = 0 if rnd.random() < 0.8 else rnd.randrange(warm, warm + 5)
+        listed_i = 0 if (rnd.random() < 0.8 or len(cal) < warm + 7) else rnd.randrange(warm, warm + 5)
         delist_i = None if (rnd.random() >= p_delist or len(cal) - 1 <= warm + 6) else rnd.randrange(warm + 6, len(cal) - 1)
         p = round(rnd.uniform(2, 60), 2)
         bars = {}
